@@ -79,6 +79,21 @@ StoreOK(val, td, before, after, out) ==
               [] tag = "throwing" -> out = (IF c.k = "pos" THEN "throw:positive overflow" ELSE "throw:negative overflow") /\ after = before
               [] tag = "trapping" -> out = (IF c.k = "pos" THEN "trap:positive overflow" ELSE "trap:negative overflow") /\ after = before
               [] OTHER -> TRUE
+\* Reading decision (round 9, DESIGN 6.0): C11 promises "the exact result rounded by the type's rounding mode, or an overflow signal".
+\* The library evaluates the overflow predicate on the UNROUNDED value; when that exact value lies outside the destination's range and
+\* only rounding would bring it back to the bound (-0.3 units into an unsigned type; max + 0.3 units) the prescribed signal is
+\* accepted -- it is not a silent wrong value -- as well as the rounded value.
+UnroundedSide(val, td) ==
+    LET sh == val[2] - TExp(td) IN
+    IF sh >= 0 THEN "none"
+    ELSE IF Gt(val[1], Shl(TMaxRaw(td), -sh)) THEN "pos"
+    ELSE IF Lt(val[1], Shl(TMinRaw(td), -sh)) THEN "neg" ELSE "none"
+SignalOnUnrounded(val, td, before, after, out) ==
+    LET side == UnroundedSide(val, td)  tag == OverflowOf(td) IN
+    side # "none" /\ after = before
+    /\ CASE tag = "throwing" -> out = (IF side = "pos" THEN "throw:positive overflow" ELSE "throw:negative overflow")
+         [] tag = "trapping" -> out = (IF side = "pos" THEN "trap:positive overflow" ELSE "trap:negative overflow")
+         [] OTHER -> FALSE
 \* what a Step must look like
 StepOK(op, ta, ra, tb, rb, td, before, after, out) ==
     LET c == ConvertTo(OpResultValue(op, ta, ra, tb, rb), td)
